@@ -83,3 +83,14 @@ for _fn, _tab in (("_slice_node_indices", "node_face_connectivity"), ("_slice_ed
              ensures=[f"same(result, summary('{_SLI}_slice_face_indices', grid, getitem({_U}, {_U} != FILL), True))"],
              options={"abstract": True, "summaries": [_SLI + "_slice_face_indices", _GG + _tab]},
              raises=[("Exception", "False", "only_if")])
+
+
+# ---- Grid.get_faces_at_constant_latitude (C09): the faces of a cross-section are the faces adjacent to the edges the latitude scan
+# reports (padding removed) - whatever else the grid has cached (no shortcut through bounds or other derived tables)
+_EDGES = f"summary('{_GG}get_edges_at_constant_latitude', self, lat, method)"
+_UF = f"lib('numpy.unique', meth('ravel', attr(getitem(summary('{_GG}edge_face_connectivity', self), {_EDGES}), 'data')))"
+contract(_GG + "get_faces_at_constant_latitude", props=["C09"],
+         params={"self": "obj('Grid')", "lat": "opaque", "method": "opaque"}, returns="opaque",
+         ensures=[f"same(result, getitem({_UF}, {_UF} != FILL))"],
+         options={"abstract": True, "summaries": [_GG + "get_edges_at_constant_latitude", _GG + "edge_face_connectivity"]},
+         raises=[("Exception", "False", "only_if")])
